@@ -30,6 +30,8 @@ pub enum Op {
     Reply(u8),
     /// peer answers on the socket of a flow that has expired
     LateReply(u8),
+    /// somebody who is not the flow's destination sends a datagram to the flow's outbound socket
+    Foreign(u8),
     Tick,
     /// destination that cannot be connected (255.255.255.255:9 -> EACCES)
     SendUnconnectable,
@@ -235,6 +237,18 @@ async fn run_history(hist: &[Op]) -> Result<HistOutcome, Violation> {
                     }
                 }
             }
+            Op::Foreign(i) => {
+                if !model.flows.contains_key(i) {
+                    return Ok(HistOutcome { canon: 0, extend: false });
+                }
+                let Some(to) = peers.seen_from.get(i).copied() else {
+                    return Ok(HistOutcome { canon: 0, extend: false });
+                };
+                if let Ok(third) = std::net::UdpSocket::bind((MY_IP.with(|ip| *ip), 0)) {
+                    let _ = third.send_to(format!("x{step}-foreign-f{i}").as_bytes(), to);
+                }
+                // nothing may reach the client: it would be labelled as coming from the flow's destination
+            }
             Op::Tick => {
                 tokio::time::advance(Duration::from_millis(STEP_MS)).await;
                 let mut dead = vec![];
@@ -350,6 +364,7 @@ fn op_name(op: Option<&Op>) -> &'static str {
         Some(Op::Reply(3)) => "dns-answer",
         Some(Op::Reply(_)) => "reply",
         Some(Op::LateReply(_)) => "late-reply",
+        Some(Op::Foreign(_)) => "foreign-datagram",
         Some(Op::Tick) => "tick",
         Some(Op::SendUnconnectable) => "unconnectable",
         Some(Op::BurstClosedPort) => "burst-to-closed-port",
@@ -362,7 +377,7 @@ impl HistoryModel for M {
     type Op = Op;
     fn ops(&self) -> Vec<Op> {
         vec![
-            Op::Send(0), Op::Send(1), Op::Send(2), Op::Send(3), Op::Reply(0), Op::Reply(3), Op::LateReply(0), Op::Tick,
+            Op::Send(0), Op::Send(1), Op::Send(2), Op::Send(3), Op::Reply(0), Op::Reply(3), Op::LateReply(0), Op::Foreign(0), Op::Tick,
             Op::SendUnconnectable, Op::BurstClosedPort,
         ]
     }
